@@ -95,6 +95,13 @@ func (lifeComp) Exec(op string) (string, string, string, bool) {
 	}
 	carrier, closer, ending := f[0], f[2], f[3]
 	n, _ := strconv.Atoi(f[1])
+	if closer == "badpeer" {
+		if n < 1 || (ending != "hold" && ending != "close") || (carrier != "tcp" && carrier != "tcptls" && carrier != "starttls") {
+			return "bad-op", "", "bad", false
+		}
+		res, mon := badPeers(carrier, n, ending)
+		return res, mon, carrier + " badpeer " + ending, strings.HasPrefix(res, "grow=")
+	}
 	tmode := "echo"
 	if closer == "target" {
 		tmode = "source:100:1"
@@ -168,6 +175,9 @@ func (lifeComp) Gen(r *Rand, tier string, emit func(string)) {
 	}
 	emit("tcp 25 refused none")
 	emit("ws 25 refused none")
+	emit("tcp 30 badpeer hold")
+	emit("tcp 12 badpeer close")
+	emit("tcptls 12 badpeer hold")
 	emit("stdio 10 app timeout")
 	emit("stdio 10 app reset")
 	emit("tcp 10 app cut")
@@ -179,6 +189,9 @@ func (lifeComp) Gen(r *Rand, tier string, emit func(string)) {
 			emit(c + " 50 app none")
 			emit(c + " 50 target none")
 		}
+		emit("tcp 100 badpeer hold")
+		emit("starttls 30 badpeer hold")
+		emit("tcptls 30 badpeer close")
 		emit("tcp 100 app none")
 		emit("tcp 100 target none")
 		emit("ws 10 app garbage")
